@@ -223,14 +223,24 @@ Definition ensure_user (r : ref) (src : source) : ref :=
   | None => r_set_users r (sm_set (key (s_name src)) (mkRUser (s_name src) (s_ident src) (s_host src) [] [] []) (r_users r))
   end.
 
-(* extended-join: JOIN <channel> <account|*> :<realname> *)
+(* extended-join: JOIN <channel> <account|*> :<realname>; "*" = not logged in *)
 Definition ext_join (rest : list str) (u : ruser) : ruser :=
   match rest with
   | [] => u
   | acct :: rest2 =>
-      let u1 := if streqb acct [42] then u else ru_set_account u acct in
+      let u1 := ru_set_account u (if streqb acct [42] then [] else acct) in
       match rest2 with [] => u1 | name :: _ => ru_set_name u1 name end
   end.
+
+(* the prefix nick!ident@host of a JOIN is authoritative for ident and host (a prefix that
+   shows neither says nothing) *)
+Definition tell_prefix (src : source) (u : ruser) : ruser :=
+  if is_nil (s_ident src) && is_nil (s_host src) then u else ru_set_ident_host u (s_ident src) (s_host src).
+
+(* what a JOIN says about the joining user: the prefix, the account tag if any, then the
+   extended-join parameters *)
+Definition join_tell (src : source) (tag : option str) (rest : list str) (u : ruser) : ruser :=
+  ext_join rest (match tag with Some a => ru_set_account (tell_prefix src u) a | None => tell_prefix src u end).
 
 Definition add_member (kn : str) (c : rchan) : rchan :=
   match alookup kn (rc_members c) with
@@ -238,14 +248,14 @@ Definition add_member (kn : str) (c : rchan) : rchan :=
   | None => rc_set_members c (sm_set kn perms0 (rc_members c))
   end.
 
-Definition ref_join (r : ref) (src : source) (chan : str) (rest : list str) : ref :=
+Definition ref_join (r : ref) (src : source) (tag : option str) (chan : str) (rest : list str) : ref :=
   let kc := key chan in
   let kn := key (s_name src) in
   let r1 := match alookup kc (r_chans r) with
             | Some _ => r
             | None => r_set_chans r (sm_set kc (mkRChan chan [] [] []) (r_chans r))
             end in
-  let r2 := upd_user (ensure_user r1 src) (s_name src) (ext_join rest) in
+  let r2 := upd_user (ensure_user r1 src) (s_name src) (join_tell src tag rest) in
   let r3 := upd_chan r2 chan (add_member kn) in
   if is_me r (s_name src) then r_set_ident_host r3 (s_ident src) (s_host src) else r3.
 
@@ -319,7 +329,7 @@ Definition ref_cmd (r : ref) (e : event) : ref :=
   let ps := e_params e in
   if cmdb e c_001 then match ps with p0 :: _ => r_set_me r p0 | [] => r end
   else if cmdb e c_JOIN then
-    match e_src e, ps with Some src, chan :: rest => ref_join r src chan rest | _, _ => r end
+    match e_src e, ps with Some src, chan :: rest => ref_join r src (e_account_tag e) chan rest | _, _ => r end
   else if cmdb e c_PART then
     match e_src e, ps with Some src, chan :: _ => ref_leave r chan (s_name src) | _, _ => r end
   else if cmdb e c_KICK then
@@ -376,19 +386,11 @@ Definition ref_apply (r : ref) (e : event) : ref := ref_cmd (ref_tag r e) e.
 Definition ref_step (r : ref) (e : event) : ref := ref_gc (ref_apply r e).
 Definition ref_run (h : list event) : ref := fold_left ref_step h ref_init.
 
-(* ref_cmd does not record again what a message merely repeats about a user we already know
-   (the ident/host in a JOIN prefix or a userhost-in-names entry, the "*" of an extended JOIN,
-   the account tag of a JOIN). `told_step` does: it is the literal reading, and what the
-   theorems are stated with; on conformant messages the two agree (Proofs/ToldEq.v). *)
+(* ref_cmd does not record again the ident/host a userhost-in-names entry repeats about a user
+   we already know. `told_step` does: it is the literal reading, and what the theorems are
+   stated with; on conformant messages the two agree (Proofs/ToldEq.v). *)
 Definition tell_identity (r : ref) (src : source) : ref :=
   upd_user r (s_name src) (fun u => ru_set_ident_host u (s_ident src) (s_host src)).
-
-Definition told_join (r : ref) (src : source) (chan : str) (rest : list str) : ref :=
-  let r1 := tell_identity (ref_join r src chan rest) src in
-  match rest with
-  | acct :: _ => if streqb acct [42] then upd_user r1 (s_name src) (fun u => ru_set_account u []) else r1
-  | [] => r1
-  end.
 
 Definition told_names_entry (chan : str) (r : ref) (entry : str) : ref :=
   let r1 := ref_names_entry chan r entry in
@@ -399,15 +401,11 @@ Definition told_names (r : ref) (chan names : str) : ref :=
   if tracked_chan r chan then fold_left (told_names_entry chan) (split_byte 32 names) r else r.
 
 Definition told_cmd (r : ref) (e : event) : ref :=
-  if cmdb e c_JOIN then
-    match e_src e, e_params e with Some src, chan :: rest => told_join r src chan rest | _, _ => r end
-  else if cmdb e c_353 then
+  if cmdb e c_353 then
     match e_params e with _ :: _ :: chan :: _ => told_names r chan (last_of e) | _ => r end
   else ref_cmd r e.
 
-Definition told_apply (r : ref) (e : event) : ref :=
-  let r1 := told_cmd (ref_tag r e) e in
-  if cmdb e c_JOIN then ref_tag r1 e else r1.      (* the tag of a JOIN also describes the new member *)
+Definition told_apply (r : ref) (e : event) : ref := told_cmd (ref_tag r e) e.
 Definition told_step (r : ref) (e : event) : ref := ref_gc (told_apply r e).
 Definition told_run (h : list event) : ref := fold_left told_step h ref_init.
 
@@ -415,8 +413,8 @@ Definition told_run (h : list event) : ref := fold_left told_step h ref_init.
 
 Definition this_server_text : str := Eval vm_compute in bs "this server".
 
-(* a user is presented under one ident/host: what a message shows of a known user agrees
-   with what we were told before *)
+(* userhost-in-names repeats the ident/host of users we may already know: a correct server
+   shows a known user under the ident/host it showed before (changes come as CHGHOST) *)
 Definition consistent_user (r : ref) (src : source) : bool :=
   match alookup (key (s_name src)) (r_users r) with
   | None => true
@@ -466,7 +464,6 @@ Definition ok_token (r : ref) (t : str) : bool :=
   | [] => false
   | b :: _ =>
       (is_alpha b || is_digit b) &&
-      (if memb 61 t then negb (is_nil (after 61 t)) else true) &&
       (* the mode classes of a joined channel do not change under its feet *)
       (is_nil (r_chans r) || negb (streqb (before 61 t) k_CHANMODES || streqb (before 61 t) k_PREFIX))
   end.
@@ -482,24 +479,6 @@ Definition ok_hopreal (s : str) : bool :=
       end
   end.
 
-(* an account tag names the account of its sender ("*" is not an account name). On a JOIN it
-   agrees with the extended-join account parameter when there is one; without extended-join
-   the tag of somebody we do not track yet would be all we ever hear of the account, which
-   account-tag without extended-join does not promise to repeat: there the sender is known *)
-Definition tag_ok (r : ref) (e : event) : bool :=
-  match e_src e, e_account_tag e with
-  | Some src, Some a =>
-      negb (streqb a [42]) &&
-      (if cmdb e c_JOIN then
-         match e_params e with
-         | _ :: acct :: _ => streqb acct a
-         | _ => tracked_user r (s_name src)
-         end
-       else true)
-  | None, Some _ => false
-  | _, None => true
-  end.
-
 Definition cmd_ok (r : ref) (e : event) : bool :=
   let ps := e_params e in
   if cmdb e c_001 then
@@ -509,14 +488,9 @@ Definition cmd_ok (r : ref) (e : event) : bool :=
     (if cmdb e c_JOIN then
        match e_src e, ps with
        | Some src, chan :: rest =>
-           is_valid_channel chan && is_valid_nick (s_name src) && consistent_user r src &&
+           is_valid_channel chan && is_valid_nick (s_name src) &&
            (if is_me r (s_name src) then negb (tracked_chan r chan)
-            else tracked_chan r chan && negb (member_of r chan (s_name src))) &&
-           (* account-notify keeps the account current: "*" is only shown for a user not logged in *)
-           match rest, alookup (key (s_name src)) (r_users r) with
-           | acct :: _, Some u => negb (streqb acct [42]) || is_nil (ru_account u)
-           | _, _ => true
-           end
+            else tracked_chan r chan && negb (member_of r chan (s_name src)))
        | _, _ => false
        end
      else if cmdb e c_PART then
@@ -582,7 +556,7 @@ Definition cmd_ok (r : ref) (e : event) : bool :=
      else true).
 
 (* the account tag is read first; the command must make sense in the told-state after it *)
-Definition conformant (r : ref) (e : event) : bool := tag_ok r e && cmd_ok (ref_tag r e) e.
+Definition conformant (r : ref) (e : event) : bool := cmd_ok (ref_tag r e) e.
 
 (* a history is conformant when each message is, in the told-state reached before it *)
 Fixpoint conformant_from (r : ref) (h : list event) : bool :=
